@@ -36,8 +36,22 @@ def log(*a):
     print(*a, flush=True)
 
 
+def load_registry():
+    p = os.path.join(HERE, 'registry.json')
+    if os.path.exists(p):
+        return json.load(open(p))
+    return {}
+
+
 def load_prop(pid):
-    return importlib.import_module('props.' + pid).PROP
+    prop = importlib.import_module('props.' + pid).PROP
+    reg = load_registry().get(pid)
+    if reg is not None:
+        prop.lean_modules = list(reg['modules'])
+        prop.theorems = list(reg['theorems'])
+        prop.agree = list(reg.get('agree', []))
+        prop.agree_theorems = list(reg.get('agree_theorems', []))
+    return prop
 
 
 # ----------------------------------------------------------------------------------------------
@@ -71,37 +85,60 @@ def lake_build(targets, timeout=3000):
     return p.returncode == 0, out, time.time() - t0
 
 
+def import_closure(modules):
+    """source files of the given Isotp.* modules and of everything they import inside this project"""
+    import re
+    seen, todo = {}, list(modules)
+    while todo:
+        m = todo.pop()
+        if m in seen or not (m == 'Isotp' or m.startswith('Isotp.')):
+            continue
+        path = os.path.join(LEAN, *m.split('.')) + '.lean'
+        if not os.path.exists(path):
+            continue
+        seen[m] = path
+        for line in open(path, encoding='utf-8'):
+            mm = re.match(r'\s*(?:public\s+)?import\s+(\S+)', line)
+            if mm:
+                todo.append(mm.group(1))
+    return seen
+
+
 def grep_forbidden(modules):
-    """forbidden tokens outside comments in the lean sources of the given modules (and everything they may import in Isotp/)"""
+    """forbidden tokens outside comments in the lean sources of the given modules and of everything they import in Isotp/"""
     bad = []
     import re
     pat = re.compile(r'\b(sorry|admit|native_decide|bv_decide|implemented_by|unsafe)\b|^\s*axiom\s|maxHeartbeats\s+0\b')
-    for root, _, files in os.walk(os.path.join(LEAN, 'Isotp')):
-        for fn in files:
-            if not fn.endswith('.lean'):
-                continue
-            path = os.path.join(root, fn)
-            depth = 0
-            for ln, line in enumerate(open(path, encoding='utf-8'), 1):
-                # strip block comments (coarse) and line comments
-                s = line
-                res = ''
-                i = 0
-                while i < len(s):
-                    if s.startswith('/-', i):
-                        depth += 1
-                        i += 2
-                    elif s.startswith('-/', i) and depth > 0:
-                        depth -= 1
-                        i += 2
-                    else:
-                        if depth == 0:
-                            res += s[i]
-                        i += 1
-                res = res.split('--')[0]
-                if pat.search(res):
-                    bad.append('%s:%d: %s' % (os.path.relpath(path, LEAN), ln, line.strip()))
+    for mod, path in sorted(import_closure(modules).items()):
+        depth = 0
+        for ln, line in enumerate(open(path, encoding='utf-8'), 1):
+            s = line
+            res = ''
+            i = 0
+            while i < len(s):
+                if s.startswith('/-', i):
+                    depth += 1
+                    i += 2
+                elif s.startswith('-/', i) and depth > 0:
+                    depth -= 1
+                    i += 2
+                else:
+                    if depth == 0:
+                        res += s[i]
+                    i += 1
+            res = res.split('--')[0]
+            if pat.search(res):
+                bad.append('%s:%d: %s' % (os.path.relpath(path, LEAN), ln, line.strip()))
     return bad
+
+
+def leanchecker(modules):
+    """independent re-check of the compiled .olean files of the given modules (thorough tier)"""
+    try:
+        p = subprocess.run(['lake', 'env', 'leanchecker'] + list(modules), cwd=LEAN, stdout=subprocess.PIPE, stderr=subprocess.STDOUT, timeout=3000)
+    except Exception as e:
+        return False, 'leanchecker failed to run: %r' % (e,)
+    return p.returncode == 0, p.stdout.decode(errors='replace')
 
 
 def audit_axioms(pid, theorems, imports):
@@ -354,14 +391,21 @@ def run_check(pid, tier, seed):
         if forb:
             proof_broken.append(('audit', 'forbidden tokens: ' + '; '.join(forb[:5])))
         th_ok = {}
-        if all(mod_ok.get(m, False) for m in prop.lean_modules) and prop.theorems:
-            th_ok = audit_axioms(pid, prop.theorems, prop.lean_modules)
+        agree_th = list(getattr(prop, 'agree_theorems', []))
+        built = [m for m in list(prop.lean_modules) + list(prop.agree) if mod_ok.get(m, False)]
+        all_th = list(prop.theorems) + agree_th
+        if built and all_th:
+            th_ok = audit_axioms(pid, all_th, built)
             for t, (okk, axs) in th_ok.items():
                 if not okk:
                     proof_broken.append((t, 'axioms: %s' % axs))
-        agree_ok = sum(1 for a in prop.agree if mod_ok.get(a))
-    obligations = len(prop.theorems) + len(prop.agree)
-    discharged = sum(1 for t in prop.theorems if th_ok.get(t, (False,))[0]) + agree_ok
+        if tier == 'thorough' and built:
+            okc, outc = leanchecker(built)
+            if not okc:
+                proof_broken.append(('leanchecker', outc[-400:]))
+    all_th = list(prop.theorems) + list(getattr(prop, 'agree_theorems', []))
+    obligations = len(all_th)
+    discharged = sum(1 for t in all_th if th_ok.get(t, (False,))[0])
     log('[%s] build+audit: %d/%d obligations discharged (%.1fs)' % (pid, discharged, obligations, time.time() - t_start))
     for (what, why) in proof_broken:
         log('[%s] PROOF OBLIGATION BROKEN: %s :: %s' % (pid, what, why.replace('\n', ' | ')[:400]))
@@ -463,9 +507,9 @@ def run_check(pid, tier, seed):
         'coverage': {
             'obligations': obligations, 'discharged': discharged,
             'checker_cmd': 'cd /verif/lean && lake build %s && lake env lean .lake/audit/Audit_%s.lean  (#print axioms on: %s)' % (
-                ' '.join(list(prop.lean_modules) + list(prop.agree)), pid, ', '.join(prop.theorems)),
+                ' '.join(list(prop.lean_modules) + list(prop.agree)), pid, ', '.join(all_th)),
             'trusted_base': TRUSTED_BASE + list(getattr(prop, 'extra_trusted', [])),
-            'theorems': {t: {'ok': th_ok.get(t, (False, []))[0], 'axioms': th_ok.get(t, (False, ['<not built>']))[1]} for t in prop.theorems},
+            'theorems': {t: {'ok': th_ok.get(t, (False, []))[0], 'axioms': th_ok.get(t, (False, ['<not built>']))[1]} for t in all_th},
             'agree_leaves': {a: bool(mod_ok.get(a)) for a in prop.agree},
             'evaluations': agg['scenarios'], 'distinct_nontrivial': len(keys),
             'rule': prop.rule,
